@@ -24,10 +24,12 @@
 (*   into the record BEFORE the message is formatted, and a message        *)
 (*   argument whose Show instance runs a complete try / throw / catch of   *)
 (*   its own (ThrowNested) leaves ITS object there.                        *)
+(*   ObjKeptInCatch = FALSE is exception_catch as found: it re-reads the   *)
+(*   record after every comparison with a filter item (ThrowCmpNested).    *)
 (***************************************************************************)
 EXTENDS Integers, Sequences, FiniteSets, TLC, Json
 
-CONSTANTS Kinds, MaxNest, MaxSteps, ClearActive, ObjAfterMsg, Emit
+CONSTANTS Kinds, MaxNest, MaxSteps, ClearActive, ObjAfterMsg, ObjKeptInCatch, Emit
 
 VARIABLES cs,        \* lexical context: sequence of [f |-> filter, pc |-> "body" | "handler"]
           depth, active, obj,      \* the machine
@@ -96,6 +98,19 @@ ThrowNested(e, k) ==
         ref' = IF r = 0 THEN Append(ref, <<"uncaught", e>>) ELSE Append(ref, <<"h", r, e>>)
      /\ Land(MachTarget(cs, Len(cs), depth, mobj), mobj, FALSE)
 
+(* throw e where the innermost open construct has a filter that does not name e and whose kinds COMPARE by running a complete      *)
+(* try { throw k } catch (..) { } of their own (a Cmp instance that uses exceptions): block structure says the exception travels   *)
+(* on as e; the machine re-raises whatever its record holds after the comparison (ObjKeptInCatch = FALSE: as found, that is k)     *)
+ThrowCmpNested(e, k) ==
+  /\ BodyIdx(cs) # {} /\ LET i == Max(BodyIdx(cs)) IN cs[i].f # {} /\ e \notin cs[i].f
+  /\ Tick([op |-> "throwcmpnested", e |-> e, k |-> k]) /\ depth < MaxNest + 1
+  /\ LET i == Max(BodyIdx(cs))
+         mobj == IF ObjKeptInCatch THEN e ELSE k IN
+     /\ obj' = mobj
+     /\ LET r == RefTarget(cs, e) IN
+        ref' = IF r = 0 THEN Append(ref, <<"uncaught", e>>) ELSE Append(ref, <<"h", r, e>>)
+     /\ Land(MachTarget(cs, i - 1, depth - 1, mobj), mobj, FALSE)
+
 (* the body of the innermost construct completes normally: exception_try_end, then exception_catch decides *)
 EndBody ==
   /\ Tick([op |-> "endbody"]) /\ cs # <<>> /\ cs[Len(cs)].pc = "body"
@@ -116,6 +131,7 @@ EndHandler ==
 Next == \/ \E f \in Filters : EnterTry(f)
         \/ \E e \in Kinds : Throw(e)
         \/ \E e, k \in Kinds : e # k /\ ThrowNested(e, k)
+        \/ \E e, k \in Kinds : e # k /\ ThrowCmpNested(e, k)
         \/ Mark \/ EndBody \/ EndHandler
 Spec == Init /\ [][Next]_vars
 
